@@ -151,6 +151,55 @@ def mirrored_in_some_masters(ds, name):
     return False
 
 
+def closing_point_coincides_in_some_masters(ds, name):
+    """Does `name` (or a glyph it references) have a closed contour whose start point is a
+    'line' point that coincides with the contour's last point in some masters / layers but not
+    in all of them?  (fontTools' PointToSegmentPen spells the closing line out only when it has
+    zero length.)"""
+    tables = []
+    for u in ds["ufos"]:
+        tables.append({g["name"]: g for g in u["glyphs"]})
+        for layer in (u.get("layers") or {}).values():
+            tables.append({g["name"]: g for g in layer})
+    seen, todo = set(), [name]
+    while todo:
+        n = todo.pop()
+        if n in seen:
+            continue
+        seen.add(n)
+        flags = {}
+        for tb in tables:
+            g = tb.get(n)
+            if g is None:
+                continue
+            for ci, c in enumerate(g["contours"]):
+                if len(c) >= 2 and c[0][2] == "line":
+                    flags.setdefault(ci, set()).add(
+                        (c[0][0], c[0][1]) == (c[-1][0], c[-1][1]) and c[-1][2] is not None)
+            todo.extend(cc["base"] for cc in g["components"])
+        if any(len(v) > 1 for v in flags.values()):
+            return True
+    return False
+
+
+def closing_point_on_start_in_one_master(rng, ds):
+    """Dedicated stratum of a listed finding: the last point of a line contour is moved onto
+    the contour's start point in ONE master."""
+    base = ds["ufos"][0]["glyphs"]
+    cands = [(g["name"], ci) for g in base for ci, c in enumerate(g["contours"])
+             if len(c) >= 4 and c[0][2] == "line" and c[-1][2] == "line"]
+    if not cands or len(ds["ufos"]) < 2:
+        return False
+    name, ci = rng.choice(cands)
+    ui = rng.randrange(len(ds["ufos"]))
+    for g in ds["ufos"][ui]["glyphs"]:
+        if g["name"] == name and ci < len(g["contours"]):
+            c = g["contours"][ci]
+            c[-1][0], c[-1][1] = c[0][0], c[0][1]
+            return True
+    return False
+
+
 def collinear_in_one_master(rng, ds):
     """Three consecutive on-curve points of a line contour share one y (or x) in ONE master only:
     a per-master charstring optimiser would merge the two line operators there and nowhere
@@ -175,6 +224,10 @@ def collinear_in_one_master(rng, ds):
             if k == ui:
                 c[j][ax] = c[j - 1][ax]
                 c[j + 1][ax] = c[j - 1][ax]
+                # (never ON the contour's start / end point: a zero-length closing segment in
+                # one master is the stratum of a listed finding)
+                if (c[0][0], c[0][1]) == (c[-1][0], c[-1][1]):
+                    c[-1][1 - ax] += 13
             elif c[j][ax] == c[j - 1][ax] == c[j + 1][ax]:
                 c[j][ax] += 7
     return True
@@ -202,6 +255,29 @@ def nested_chain_in_sparse(rng, ds):
     for k, u in enumerate(ds["ufos"]):
         u["glyphs"].extend(chain(k))
     ds["ufos"][sp["host"]]["layers"][sp["layer"]].append(chain(7)[2])
+    return True
+
+
+def overflow_chain_in_sparse(rng, ds):
+    """ovf.two -(x1.5)-> ovf.one -(x1.5)-> a simple glyph that the sparse layer redraws: once the
+    two references are merged (flattenComponents) the 2x2 part is 2.25 (dedicated stratum of a
+    listed finding)."""
+    sp = (ds.get("meta") or {}).get("sparse")
+    if not sp:
+        return False
+    base = {g["name"]: g for g in ds["ufos"][0]["glyphs"]}
+    simple = [n for n in sp["glyphs"] if n in base and base[n]["contours"] and not base[n]["components"]]
+    if not simple:
+        return False
+    for k, u in enumerate(ds["ufos"]):
+        if not u.get("glyphs"):
+            continue
+        u["glyphs"].append({"name": "ovf.one", "width": 600 + k, "unicodes": [], "contours": [],
+                            "anchors": [], "components": [
+                                {"base": simple[0], "t": [1.5, 0, 0, 1.5, 10 + k, 0]}]})
+        u["glyphs"].append({"name": "ovf.two", "width": 700 + k, "unicodes": [], "contours": [],
+                            "anchors": [], "components": [
+                                {"base": "ovf.one", "t": [1.5, 0, 0, 1.5, 20 + 2 * k, 5]}]})
     return True
 
 
@@ -255,7 +331,11 @@ def gen(rng, idx, tier):
         stratum = "mirrored_in_one_master"
     support = False
     opts = {}
-    if "TTF" in func and rng.random() < 0.35:
+    if func == "compileInterpolatableTTFsFromDS" and rng.random() < 0.2 \
+            and overflow_chain_in_sparse(rng, ds):
+        opts["flattenComponents"] = True
+        stratum = "merged_reference_overflow"
+    elif "TTF" in func and rng.random() < 0.35:
         opts["flattenComponents"] = True
         if rng.random() < 0.6 and nested_chain_in_sparse(rng, ds):
             opts["_nested_in_sparse"] = True
@@ -265,6 +345,8 @@ def gen(rng, idx, tier):
         opts["optimizeCFF"] = 1
         if collinear_in_one_master(rng, ds):
             opts["_collinear"] = True
+        if stratum == "default" and rng.random() < 0.12 and closing_point_on_start_in_one_master(rng, ds):
+            stratum = "closing_point_on_start_in_one_master"
         if rng.random() < 0.1:
             # SUBROUTINIZE: every master goes through the subroutiniser; with a sparse master
             # this is the stratum of a listed finding (tx needs a cmap)
@@ -513,7 +595,39 @@ def run(case):
             "counters": counters, "nontrivial": len(loaded) >= 2 and (cubic or comp)}
 
 
+def composed_2x2_overflows(glyphs, name):
+    """Does some chain of component references below `name` compose to a 2x2 part with an entry
+    beyond what a TrueType composite can store (|v| >= 2)?"""
+    from vf.ref import render as R
+
+    def walk(n, m, depth):
+        if depth > 8 or n not in glyphs:
+            return False
+        for c in glyphs[n]["components"]:
+            cm = R.compose(m, R.mat(c["t"]))
+            if depth >= 1 and any(abs(float(cm[i])) >= 2 - 2 ** -14 for i in range(4)):
+                return True
+            if walk(c["base"], cm, depth + 1):
+                return True
+        return False
+
+    return walk(name, R.IDENT, 0)
+
+
 def classify(v, case):
+    if (v["mech"] == "structure_differs_across_masters" and "OTF" in case["func"]
+            and closing_point_coincides_in_some_masters(case["ds"], v["detail"]["glyph"])):
+        return "closing_point_on_start_point_in_some_masters_only"
+    if (v["mech"] == "decomposed_composite_missing_from_sparse_master"
+            and "TTF" in case["func"] and (case["opts"].get("flattenComponents") or case["skip"])):
+        # nested references are merged into one (flattening, or inlining a non-exported
+        # glyph): when the composed 2x2 part cannot be stored in a TrueType composite the glyf
+        # builder decomposes the glyph, in every full master separately - no joint decision and
+        # no copy in the sparse master (same root as C13's inlined_reference_overflows_...)
+        by = {g["name"]: g for g in case["ds"]["ufos"][case["ds"]["sources"][
+            masters.default_source_index(case["ds"])]["ufo"]]["glyphs"]}
+        if composed_2x2_overflows(by, v["detail"]["glyph"]):
+            return "merged_reference_overflows_f2dot14_decomposed_without_sparse_master"
     if v["mech"] == "structure_differs_across_masters":
         # the decomposition reverses the contours of a mirrored component (negative
         # determinant) master by master: a component that is mirrored in some masters only
